@@ -136,6 +136,32 @@ fn alloc_plain(cs: &ConstraintSystemRef<Fq>, e: Element) -> R<ElementVar> {
     <ElementVar as CurveVar<Element, Fq>>::new_variable_omit_prime_order_check(cs.clone(), || Ok(e), AllocationMode::Witness).map_err(se)
 }
 
+/// the value of an element-valued result; with `post=enc` also the encoding the gadget computes for it in-circuit
+/// (a stale or wrong cached encoding shows up here and nowhere else)
+fn fin(a: &Args, z: &ElementVar) -> R<String> {
+    let mut s = elem_value(z);
+    if a.get("post") == Some("enc") {
+        let e = z.compress_to_field().map_err(se)?;
+        s.push_str(";enc=");
+        s.push_str(&e.value().map(|v| fqh(&v)).unwrap_or_else(|_| "?".into()));
+    }
+    Ok(s)
+}
+
+/// operand allocation; with `pre=enc` the operand's encoding is forced (and cached in its lazy cell) before use,
+/// with `pre=input` it is allocated as a public input (encoding known, element decoded in-circuit)
+fn alloc_operand(a: &Args, cs: &ConstraintSystemRef<Fq>, e: Element) -> R<ElementVar> {
+    match a.get("pre") {
+        Some("input") => ElementVar::new_input(cs.clone(), || Ok(e)).map_err(se),
+        Some("enc") => {
+            let v = alloc_plain(cs, e)?;
+            let _ = v.compress_to_field().map_err(se)?;
+            Ok(v)
+        }
+        _ => alloc_plain(cs, e),
+    }
+}
+
 /// synthesise gadget `op`; returns the textual output value
 fn synth(op: &str, a: &Args, cs: &ConstraintSystemRef<Fq>) -> R<String> {
     match op {
@@ -182,49 +208,49 @@ fn synth(op: &str, a: &Args, cs: &ConstraintSystemRef<Fq>) -> R<String> {
         | "add_const_asg" | "sub_const_asg" => {
             let x = a.elem("a")?;
             let y = a.elem("b")?;
-            let xv = alloc_plain(cs, x)?;
+            let xv = alloc_operand(a, cs, x)?;
             let yv = alloc_plain(cs, y)?;
             match op {
-                "add" => Ok(elem_value(&(xv + yv))),
-                "sub" => Ok(elem_value(&(xv - yv))),
-                "add_ref" => Ok(elem_value(&(xv + &yv))),
-                "sub_ref" => Ok(elem_value(&(xv - &yv))),
-                "add_asg" => { let mut z = xv; z += yv; Ok(elem_value(&z)) }
-                "sub_asg" => { let mut z = xv; z -= yv; Ok(elem_value(&z)) }
-                "add_const" => Ok(elem_value(&(xv + y))),
-                "sub_const" => Ok(elem_value(&(xv - y))),
-                "add_const_asg" => { let mut z = xv; z += y; Ok(elem_value(&z)) }
-                "sub_const_asg" => { let mut z = xv; z -= y; Ok(elem_value(&z)) }
+                "add" => fin(a, &(xv + yv)),
+                "sub" => fin(a, &(xv - yv)),
+                "add_ref" => fin(a, &(xv + &yv)),
+                "sub_ref" => fin(a, &(xv - &yv)),
+                "add_asg" => { let mut z = xv; z += yv; fin(a, &z) }
+                "sub_asg" => { let mut z = xv; z -= yv; fin(a, &z) }
+                "add_const" => fin(a, &(xv + y)),
+                "sub_const" => fin(a, &(xv - y)),
+                "add_const_asg" => { let mut z = xv; z += y; fin(a, &z) }
+                "sub_const_asg" => { let mut z = xv; z -= y; fin(a, &z) }
                 "iseq" => Ok(xv.is_eq(&yv).map_err(se)?.value().map(|b| if b { "1" } else { "0" }).unwrap_or("?").to_string()),
                 "enforce_eq" => { xv.enforce_equal(&yv).map_err(se)?; Ok("-".into()) }
                 "enforce_neq" => { xv.enforce_not_equal(&yv).map_err(se)?; Ok("-".into()) }
                 _ => {
                     let c = a.get("c").unwrap_or("0") == "1";
                     let cv = Boolean::new_witness(cs.clone(), || Ok(c)).map_err(se)?;
-                    Ok(elem_value(&ElementVar::conditionally_select(&cv, &xv, &yv).map_err(se)?))
+                    fin(a, &ElementVar::conditionally_select(&cv, &xv, &yv).map_err(se)?)
                 }
             }
         }
         "neg" | "dbl" => {
             let x = a.elem("a")?;
-            let xv = alloc_plain(cs, x)?;
+            let xv = alloc_operand(a, cs, x)?;
             if op == "neg" {
-                Ok(elem_value(&xv.negate().map_err(se)?))
+                fin(a, &xv.negate().map_err(se)?)
             } else {
                 let mut z = xv;
                 z.double_in_place().map_err(se)?;
-                Ok(elem_value(&z))
+                fin(a, &z)
             }
         }
         "scalarmul" => {
             let x = a.elem("a")?;
             let bits = a.get("bits").ok_or("bad-op")?;
-            let xv = alloc_plain(cs, x)?;
+            let xv = alloc_operand(a, cs, x)?;
             let mut bv = Vec::new();
             for ch in bits.chars() {
                 bv.push(Boolean::new_witness(cs.clone(), || Ok(ch == '1')).map_err(se)?);
             }
-            Ok(elem_value(&xv.scalar_mul_le(bv.iter()).map_err(se)?))
+            fin(a, &xv.scalar_mul_le(bv.iter()).map_err(se)?)
         }
         "alloc_witness" => {
             let e = a.elem("e")?;
@@ -390,6 +416,132 @@ fn pinned(name: &str, a: &Args) -> R<(Box<dyn FnOnce(ConstraintSystemRef<Fq>) ->
     }
 }
 
+
+/// "alternative bit decomposition" attack on an honestly synthesised gadget (C14).  Every use of a bit decomposition in
+/// the gadgets is meant to be the canonical one (`to_bits_le`, which also constrains the bits to spell a number < q).
+/// This finds each decomposition row  0 * 0 = sum 2^k b_k - x  in the constraint matrices, replaces the bits by
+/// those of x + q (when that still fits in 253 bits) and re-derives, row by row in emission order, every later
+/// witness from the constraint that defines it (the first row in which it is the newest variable).  If every row
+/// ends up satisfied the prover has a second witness in which the bit-derived values (sign, absolute value, …) differ
+/// from the native ones.  On a sound gadget the range check rejects the forged bits at a row that defines nothing.
+fn forge_bits(g: &str, a: &Args) -> R<String> {
+    use ark_ff::BigInteger;
+    verif::set_hints(a.hints()?);
+    let cs = new_cs(false);
+    synth(g, a, &cs)?;
+    let honest_sat = cs.is_satisfied().map_err(se)?;
+    cs.finalize();
+    let m = cs.to_matrices().ok_or("no-matrices")?;
+    let ni = m.num_instance_variables;
+    let mut z: Vec<Fq> = Vec::new();
+    {
+        let b = cs.borrow().ok_or("no-cs")?;
+        z.extend(b.instance_assignment.iter().cloned());
+        z.extend(b.witness_assignment.iter().cloned());
+    }
+    let nbits = Fq::MODULUS_BIT_SIZE as usize;
+    let mut p2: Map<Vec<u8>, usize> = Map::new();
+    let mut c = Fq::from(1u64);
+    for k in 0..nbits {
+        p2.insert(fq_bytes(&c), k);
+        c.double_in_place();
+    }
+    let eval = |row: &Vec<(Fq, usize)>, z: &Vec<Fq>| -> Fq { row.iter().fold(Fq::zero(), |acc, (c, i)| acc + *c * z[*i]) };
+    let nrows = m.a.len();
+    // the row that defines a variable: the first one in which it is the newest variable
+    let mut def_row: Map<usize, usize> = Map::new();
+    for i in 0..nrows {
+        let mx = m.a[i].iter().chain(m.b[i].iter()).chain(m.c[i].iter()).map(|(_, v)| *v).max();
+        if let Some(v) = mx {
+            def_row.entry(v).or_insert(i);
+        }
+    }
+    let (mut groups, mut tried, mut accepted, mut rejected, mut stuck) = (0, 0, 0, 0, 0);
+    let mut detail = String::new();
+    for i in 0..nrows {
+        if !(m.a[i].is_empty() && m.b[i].is_empty()) {
+            continue;
+        }
+        let mut bits: Vec<Option<usize>> = vec![None; nbits];
+        for (coef, idx) in m.c[i].iter() {
+            if let Some(k) = p2.get(&fq_bytes(coef)) {
+                if *idx >= ni && bits[*k].is_none() && (z[*idx].is_zero() || z[*idx] == Fq::from(1u64)) {
+                    bits[*k] = Some(*idx);
+                }
+            }
+        }
+        if bits.iter().any(|b| b.is_none()) {
+            continue;
+        }
+        let bits: Vec<usize> = bits.into_iter().map(|b| b.unwrap()).collect();
+        groups += 1;
+        // the number the bits spell
+        let mut x = Fq::zero();
+        let mut c = Fq::from(1u64);
+        for k in 0..nbits {
+            x += c * z[bits[k]];
+            c.double_in_place();
+        }
+        let mut alt = x.into_bigint();
+        let carry = alt.add_with_carry(&Fq::MODULUS);
+        if carry || alt.num_bits() as usize > nbits {
+            continue; // x + q does not fit: no second decomposition of this length
+        }
+        tried += 1;
+        let mut zf = z.clone();
+        for k in 0..nbits {
+            zf[bits[k]] = if alt.get_bit(k) { Fq::from(1u64) } else { Fq::zero() };
+        }
+        let newest_forged = *bits.iter().max().unwrap();
+        let mut verdict = "accepted";
+        let mut at = 0usize;
+        for r in 0..nrows {
+            let (av, bv, cv) = (eval(&m.a[r], &zf), eval(&m.b[r], &zf), eval(&m.c[r], &zf));
+            if av * bv == cv {
+                continue;
+            }
+            at = r;
+            let u = m.a[r].iter().chain(m.b[r].iter()).chain(m.c[r].iter()).map(|(_, v)| *v).max().unwrap_or(0);
+            if u <= newest_forged || u < ni || def_row.get(&u) != Some(&r) {
+                verdict = "rejected";
+                break;
+            }
+            let coef_in = |row: &Vec<(Fq, usize)>| -> Fq { row.iter().filter(|(_, v)| *v == u).fold(Fq::zero(), |acc, (c, _)| acc + *c) };
+            let (ka, kb, kc) = (coef_in(&m.a[r]), coef_in(&m.b[r]), coef_in(&m.c[r]));
+            let n_in = [ka, kb, kc].iter().filter(|k| !k.is_zero()).count();
+            if n_in != 1 {
+                verdict = "stuck";
+                break;
+            }
+            if !kc.is_zero() {
+                let rest = cv - kc * zf[u];
+                zf[u] = (av * bv - rest) * kc.inverse().unwrap();
+            } else if !ka.is_zero() {
+                if bv.is_zero() { verdict = "stuck"; break; }
+                let rest = av - ka * zf[u];
+                zf[u] = (cv * bv.inverse().unwrap() - rest) * ka.inverse().unwrap();
+            } else {
+                if av.is_zero() { verdict = "stuck"; break; }
+                let rest = bv - kb * zf[u];
+                zf[u] = (cv * av.inverse().unwrap() - rest) * kb.inverse().unwrap();
+            }
+        }
+        match verdict {
+            "accepted" => { accepted += 1; if detail.is_empty() { detail = format!(";forged_row={};x={}", i, fqh(&x)); } }
+            "rejected" => { rejected += 1; let _ = at; }
+            _ => { stuck += 1; if detail.is_empty() { detail = format!(";stuck_row={}", at); } }
+        }
+    }
+    Ok(format!("honest={} groups={} tried={} accepted={} rejected={} stuck={}{}", honest_sat as u8, groups, tried, accepted, rejected, stuck, detail))
+}
+
+fn fq_bytes(x: &Fq) -> Vec<u8> {
+    use ark_serialize::CanonicalSerialize;
+    let mut v = Vec::new();
+    x.serialize_compressed(&mut v).unwrap();
+    v
+}
+
 pub fn exec_gadget(op: &str, args: &[&str]) -> String {
     let a = Args::parse(args);
     let r: R<String> = (|| {
@@ -406,6 +558,23 @@ pub fn exec_gadget(op: &str, args: &[&str]) -> String {
             wrong[0] += Fq::from(1u64);
             let bad = Groth16::<Bls12_377, LibsnarkReduction>::verify_with_processed_vk(&pvk, &wrong, &proof).map_err(|_| "verify-err")?;
             return Ok(format!("verify={} wrong_input={}", ok as u8, bad as u8));
+        }
+        if op == "keyshape" {
+            // dimensions of a pinned circuit as synthesised now vs. the dimensions baked into the pinned keys
+            let name = a.get("circuit").ok_or("bad-op")?;
+            let (pk, vk) = load_keys(name)?;
+            let (circ, _public) = pinned(name, &a)?;
+            let cs = new_cs(false);
+            circ(cs.clone()).map_err(se)?;
+            cs.finalize();
+            let (ni, nw, nc) = (cs.num_instance_variables(), cs.num_witness_variables(), cs.num_constraints());
+            let dom = (nc + ni).next_power_of_two();
+            return Ok(format!("circuit:inst={},wit={},dom={} keys:inst={},wit={},dom={} sat={}", ni, nw, dom,
+                vk.gamma_abc_g1.len(), pk.l_query.len(), pk.h_query.len() + 1, cs.is_satisfied().map(|b| b as u8).unwrap_or(9)));
+        }
+        if op == "forge" {
+            let g = a.get("gadget").ok_or("bad-op")?;
+            return forge_bits(g, &a);
         }
         if op == "shape" {
             let g = a.get("gadget").ok_or("bad-op")?;
